@@ -67,9 +67,8 @@ PDU::~PDU() {
 }
 
 void PDU::copy_inner_pdu(const PDU& pdu) {
-    if (pdu.inner_pdu()) {
-        inner_pdu(pdu.inner_pdu()->clone());
-    }
+    // If the other PDU has no inner PDU, this one must end up without one as well
+    inner_pdu(pdu.inner_pdu() ? pdu.inner_pdu()->clone() : 0);
 }
 
 void PDU::prepare_for_serialize() {
